@@ -15,12 +15,12 @@ META = {
     "level": "exploration",
     "engine": "E3 reference model (global factory call log vs independent recursive evaluation)",
     "rule": (
-        "seeded random trees of mappings, lists and scalars (depth <= 7, fan-out <= 5, __type__ "
+        "seeded random trees of mappings, lists and scalars (incl. bytes, tuples, ranges: plain data that must come out as it went in) (depth <= 7, fan-out <= 5, __type__ "
         "density 0-60%), __type__ nodes also inside __args__ lists and as keyword items; factories: "
         "module function, class, nested classes, static/class methods, submodule and sub-package "
         "members (modules purged from sys.modules in a third of the cases so that the import path "
         "runs); half of the cases make exactly one node fail (unknown module / unknown attribute on "
-        "an importable module or class / raising factory / wrong arguments / non-callable / a __type__ that is null, empty, 0 or false) at a random "
+        "an importable module or class / raising factory / a factory raising an exception that has a `where` attribute of its own / wrong arguments / non-callable / a __type__ that is null, empty, 0 or false) at a random "
         "position; half of the trees whose root is a __type__ mapping are translated with extra construct keywords "
         "(as the pipeline translator passes target=...), which only the root element may receive; half of those get a second failing element nested inside the first (the inner one must be reported); mapping keys "
         "that are not strings (ints, floats, booleans, null); a quarter of the valid trees hold one container object at two positions (what a YAML alias "
@@ -45,6 +45,7 @@ FAILURES = {
     "unknown_attr_sub": "vfact.sub.Klass.nosuch.more",
     "unknown_submodule": "vfact.deep.nosuch.make",
     "raises": "vfact.boom",
+    "raises_with_where": "vfact.boom_where",
     "not_callable": "vfact.CONSTANT",
     "module_not_callable": "vfact.sub",
     "wrong_args": "vfact.strict",
@@ -61,6 +62,9 @@ def plan(tier, seed):
 
 # ------------------------------------------------------------------------------ generator
 def gen_scalar(rnd):
+    if rnd.random() < 0.1:
+        # plain data that is a sequence but neither a list nor a str: handed on as it is
+        return rnd.choice([b"\x00bin", b"", (1, 2), (), range(3), bytearray(b"ab"), ("x", {"k": 1})])
     return rnd.choice([0, 1, -7, 2.5, 0.0, True, False, None, "", "text", "__type__", "a.b", "é🚀", 10**12])
 
 
